@@ -142,6 +142,7 @@ TruncHalf(h) == IF h >= 0 THEN h \div 2 ELSE -((-h) \div 2)
 RECURSIVE IsPlain(_)
 IsPlain(v) ==
     CASE v.t \in {"none", "bool", "int", "float", "fspec", "str"} -> TRUE
+      [] v.t \in {"enc", "digest"} -> TRUE     \* opaque leaves standing for {"method", "ciphertext"} / {"salt", "digest"}
       [] v.t = "list" -> \A i \in DOMAIN v.l : IsPlain(v.l[i])
       [] v.t = "dict" -> \A i \in DOMAIN v.kv : v.kv[i][1].t = "str" /\ IsPlain(v.kv[i][2])
       [] OTHER -> FALSE
